@@ -22,8 +22,8 @@ def cases(tier, seed):
     con = list(common.contend(lvl))
     bat = list(common.batch_scope(lvl))
     if tier != "thorough":
-        plan = plan[::2]
-        con = con[::3]
+        plan = common.thin(plan, 2)
+        con = common.thin(con, 3)
     static = "all" if tier == "thorough" else "diag"
 
     def shipped(c):
@@ -59,7 +59,7 @@ def run(rep, tier, seed):
         every = 10 if tier != "thorough" else 2
         cs2 = []
         for k, (sc, c) in enumerate(cs):
-            if k % every:
+            if not common.keep(k, every):
                 c = dict(c)
                 c.pop("delay")
             cs2.append((sc, c))
